@@ -221,6 +221,7 @@ impl<'a, 'b> Gen<'a, 'b> {
                 "output" => vec!["OutputDeclaration"],
                 _ => vec!["InoutDeclaration"],
             };
+            let mut variable_form = false;
             match self.t.below(5) {
                 0 => {}
                 1 => {
@@ -242,12 +243,14 @@ impl<'a, 'b> Gen<'a, 'b> {
                         if ty != "integer" && self.t.flip() {
                             self.range();
                         }
+                        variable_form = true;
                     }
                 }
                 _ => {
                     if d != "inout" {
                         self.kw("var");
                         self.kw("logic");
+                        variable_form = true;
                     }
                 }
             }
@@ -256,6 +259,12 @@ impl<'a, 'b> Gen<'a, 'b> {
             kinds.push("PortDeclaration");
             // the variable forms use list_of_variable_identifiers (input) / list_of_variable_port_identifiers (output)
             self.p.expects.push(Expect { tok: tk, name_kind: "PortIdentifier|VariableIdentifier", family: F_PORT, expected: kinds });
+            if d == "output" && variable_form && self.t.chance(1, 3) {
+                // list_of_variable_port_identifiers: port_identifier { variable_dimension } [ = constant_expression ]
+                self.tag("output-variable-initialiser");
+                self.sym("=");
+                self.const_expr(1);
+            }
             self.sym(";");
             self.vars.push(name);
         }
@@ -316,14 +325,7 @@ impl<'a, 'b> Gen<'a, 'b> {
         }
         if body_items {
             if self.t.chance(1, 10) {
-                self.tag("timeunits");
-                self.kw("timeunit");
-                self.num("1ns");
-                if self.t.flip() {
-                    self.sym("/");
-                    self.num("1ps");
-                }
-                self.sym(";");
+                self.timeunits_declaration();
             }
             let n = self.t.below(self.cfg.max_items + 1);
             for _ in 0..n {
@@ -366,18 +368,29 @@ impl<'a, 'b> Gen<'a, 'b> {
         if self.t.chance(1, 3) {
             self.parameter_port_list();
         }
-        if self.t.flip() {
-            let before = self.p.toks.len();
-            self.ansi_port_list("interface");
-            if self.p.toks.len() == before + 2 {
-                self.expect(tk, "InterfaceIdentifier", F_DESIGN, &["InterfaceDeclarationNonansi", "InterfaceDeclarationAnsi"]);
-            } else {
-                self.expect(tk, "InterfaceIdentifier", F_DESIGN, &["InterfaceDeclarationAnsi"]);
+        let mut header_closed = false;
+        match self.t.weighted(&[3, 3, 1]) {
+            0 => {
+                let before = self.p.toks.len();
+                self.ansi_port_list("interface");
+                if self.p.toks.len() == before + 2 {
+                    self.expect(tk, "InterfaceIdentifier", F_DESIGN, &["InterfaceDeclarationNonansi", "InterfaceDeclarationAnsi"]);
+                } else {
+                    self.expect(tk, "InterfaceIdentifier", F_DESIGN, &["InterfaceDeclarationAnsi"]);
+                }
             }
-        } else {
-            self.expect(tk, "InterfaceIdentifier", F_DESIGN, &["InterfaceDeclarationNonansi", "InterfaceDeclarationAnsi"]);
+            1 => {
+                self.expect(tk, "InterfaceIdentifier", F_DESIGN, &["InterfaceDeclarationNonansi", "InterfaceDeclarationAnsi"]);
+            }
+            _ => {
+                self.expect(tk, "InterfaceIdentifier", F_DESIGN, &["InterfaceDeclarationNonansi"]);
+                self.nonansi_ports_and_decls();
+                header_closed = true;
+            }
         }
-        self.sym(";");
+        if !header_closed {
+            self.sym(";");
+        }
         let n = self.t.below(5);
         for _ in 0..n {
             match self.t.weighted(&[4, 3, 2, 2, 2, 1]) {
@@ -425,18 +438,29 @@ impl<'a, 'b> Gen<'a, 'b> {
         }
         let name = self.fresh();
         let tk = self.id(&name);
-        if self.t.flip() {
-            let before = self.p.toks.len();
-            self.ansi_port_list("program");
-            if self.p.toks.len() == before + 2 {
-                self.expect(tk, "ProgramIdentifier", F_DESIGN, &["ProgramDeclarationNonansi", "ProgramDeclarationAnsi"]);
-            } else {
-                self.expect(tk, "ProgramIdentifier", F_DESIGN, &["ProgramDeclarationAnsi"]);
+        let mut header_closed = false;
+        match self.t.weighted(&[3, 3, 1]) {
+            0 => {
+                let before = self.p.toks.len();
+                self.ansi_port_list("program");
+                if self.p.toks.len() == before + 2 {
+                    self.expect(tk, "ProgramIdentifier", F_DESIGN, &["ProgramDeclarationNonansi", "ProgramDeclarationAnsi"]);
+                } else {
+                    self.expect(tk, "ProgramIdentifier", F_DESIGN, &["ProgramDeclarationAnsi"]);
+                }
             }
-        } else {
-            self.expect(tk, "ProgramIdentifier", F_DESIGN, &["ProgramDeclarationNonansi", "ProgramDeclarationAnsi"]);
+            1 => {
+                self.expect(tk, "ProgramIdentifier", F_DESIGN, &["ProgramDeclarationNonansi", "ProgramDeclarationAnsi"]);
+            }
+            _ => {
+                self.expect(tk, "ProgramIdentifier", F_DESIGN, &["ProgramDeclarationNonansi"]);
+                self.nonansi_ports_and_decls();
+                header_closed = true;
+            }
         }
-        self.sym(";");
+        if !header_closed {
+            self.sym(";");
+        }
         let n = self.t.below(5);
         for _ in 0..n {
             match self.t.weighted(&[4, 3, 2, 2, 1]) {
@@ -464,6 +488,9 @@ impl<'a, 'b> Gen<'a, 'b> {
         let tk = self.id(&name);
         self.expect(tk, "PackageIdentifier", F_DESIGN, &["PackageDeclaration"]);
         self.sym(";");
+        if self.t.chance(1, 10) {
+            self.timeunits_declaration();
+        }
         let n = self.t.below(6);
         for _ in 0..n {
             match self.t.weighted(&[4, 3, 3, 3, 2, 2, 1]) {
@@ -1048,17 +1075,87 @@ impl<'a, 'b> Gen<'a, 'b> {
         self.vars.truncate(saved);
     }
 
-    pub fn source_text(&mut self) {
-        if self.t.chance(1, 12) {
-            self.tag("timeunits");
-            self.kw("timeunit");
-            self.num("1ns");
-            self.sym(";");
-            if self.t.flip() {
-                self.kw("timeprecision");
-                self.num("10ps");
+    /// timeunits_declaration (A.1.2), all five forms
+    pub fn timeunits_declaration(&mut self) {
+        self.tag("timeunits");
+        let unit = *self.t.pick(&["1ns", "10ns", "100ps", "1us"]);
+        let prec = *self.t.pick(&["1ps", "10ps", "1fs", "100fs"]);
+        match self.t.below(5) {
+            0 => {
+                self.kw("timeunit");
+                self.num(unit);
                 self.sym(";");
             }
+            1 => {
+                self.kw("timeunit");
+                self.num(unit);
+                self.sym("/");
+                self.num(prec);
+                self.sym(";");
+            }
+            2 => {
+                self.kw("timeprecision");
+                self.num(prec);
+                self.sym(";");
+            }
+            3 => {
+                self.kw("timeunit");
+                self.num(unit);
+                self.sym(";");
+                self.kw("timeprecision");
+                self.num(prec);
+                self.sym(";");
+            }
+            _ => {
+                self.kw("timeprecision");
+                self.num(prec);
+                self.sym(";");
+                self.kw("timeunit");
+                self.num(unit);
+                self.sym(";");
+            }
+        }
+    }
+
+    /// one small design element around one or two items of a family that full programs reach rarely
+    pub fn focus_text(&mut self) {
+        let which = self.t.below(12);
+        match which {
+            0 => self.udp_declaration(),
+            1 => self.config_declaration(),
+            2 => self.checker_declaration(),
+            3 => self.class_declaration(),
+            _ => {
+                self.tag("module");
+                self.kw("module");
+                let name = self.fresh();
+                let tk = self.id(&name);
+                self.expect(tk, "ModuleIdentifier", F_DESIGN, &["ModuleDeclarationNonansi", "ModuleDeclarationAnsi"]);
+                self.sym(";");
+                if self.t.chance(1, 6) {
+                    self.timeunits_declaration();
+                }
+                let n = 1 + self.t.below(2);
+                for _ in 0..n {
+                    match which {
+                        4 | 5 => self.specify_block(),
+                        6 => self.misc_module_item(),
+                        7 | 8 => self.misc_module_item2(),
+                        9 => self.enum_struct_variable(),
+                        10 => self.generate_construct(1),
+                        _ => self.gate_instantiation(),
+                    }
+                }
+                self.kw("endmodule");
+                self.end_label(&name);
+            }
+        }
+        self.p.design_elements += 1;
+    }
+
+    pub fn source_text(&mut self) {
+        if self.t.chance(1, 10) {
+            self.timeunits_declaration();
         }
         let n = 1 + self.t.below(self.cfg.max_elements);
         for _ in 0..n {
